@@ -95,6 +95,27 @@ def pseudo_special_cell(number, choice):
     return (a, a, a, 90.0, 90.0, 90.0)
 
 
+def long_obtuse_cell(number, choice):
+    """
+    a metrically compatible cell with a LONG axis and OBTUSE free angles together: lattice-vector components like -14.2 and -23.5
+    (a sign and two integer digits: one character wider than the components of ordinary cells)
+    """
+    if number <= 2:
+        return (7.3, 8.1, 32.0, 115.0, 100.0, 95.0)
+    if number <= 15:
+        ax = monoclinic_axis(choice)
+        return (7.3, 8.1, 41.0, 90.0, 125.0, 90.0) if ax == "b" else (7.3, 41.0, 8.1, 90.0, 90.0, 125.0) if ax == "c" else (7.3, 8.1, 41.0, 125.0, 90.0, 90.0)
+    if number <= 74:
+        return (7.3, 8.1, 141.0, 90.0, 90.0, 90.0)
+    if number <= 142:
+        return (7.3, 7.3, 141.0, 90.0, 90.0, 90.0)
+    if number <= 194:
+        if choice == "R":
+            return (23.0, 23.0, 23.0, 113.1, 113.1, 113.1)
+        return (27.3, 27.3, 141.0, 90.0, 90.0, 120.0)
+    return (141.0, 141.0, 141.0, 90.0, 90.0, 90.0)
+
+
 def periodic_neighbours(M, uc_frac, centres_cart, radius, band=1e-6):
     """
     brute force: for every centre (cartesian) the images (atom index, cell) of unit-cell atoms (fractional,
